@@ -1403,6 +1403,11 @@ def _setitem(a, key, value):
         if buf.elem in ("int", "real") and (isinstance(t, str) or (z3.is_expr(t) and False)):
             raise ValueError("could not convert string to float")
         return to_z3(t) if isinstance(t, (bool, int)) and buf.elem != "py" else t
+    if (buf.elem == "int" and buf.kind == "i" and isinstance(value, ndarray) and value.kind == "i" and value.elem == "real"
+            and (key is Ellipsis or _is_full_slice(key))):
+        # integer LABELS are embedded in the reals (kind "i", elem "real").  Storing them over a whole integer array is an
+        # integer-to-integer assignment: nothing is truncated; the buffer just takes over the embedding.
+        buf.elem = "real"
     if buf.kind == "O":
         # an object array holds anything: no conversion, and from now on its elements are of the assigned sort
         if isinstance(value, ndarray) and value.elem != buf.elem and (key is Ellipsis or _is_full_slice(key)):
